@@ -284,7 +284,10 @@ func (r *pdRun) buildMsg(ci int, retransmit []byte) ([]byte, string) {
 		if len(sub) == 0 {
 			r.ctx.Count("prefix.hint.none", 1)
 		}
-		opts = append(opts, pkt.IAPD(iaid, 0, 0, sub))
+		// (T1/T2 are for the server to fill in; what a client writes there - nothing, sensible values, T1 > T2,
+		// infinity - changes nothing about what it is owed)
+		t12 := [][2]uint32{{0, 0}, {0, 0}, {0, 0}, {100, 200}, {300, 0}, {0, 300}, {200, 100}, {0xffffffff, 1}, {0xffffffff, 0xffffffff}, {1, 1}}[r.rng.Intn(10)]
+		opts = append(opts, pkt.IAPD(iaid, t12[0], t12[1], sub))
 		desc = append(desc, fmt.Sprintf("IA_PD#%d%v", iaid, hd))
 	}
 	if r.rng.Intn(4) == 0 {
